@@ -9,8 +9,8 @@ pub mod h_classes;
 pub mod h_datetime_fromstr;
 #[path = "h_datetime_kernels.rs"]
 pub mod h_datetime_kernels;
-#[path = "h_encode.rs"]
-pub mod h_encode;
+// h_encode.rs (C10 encode side through E2) is kept for reference but not compiled: none of its
+// harnesses finishes within 25 min (see DESIGN.md 10.3)
 #[path = "h_float_writer.rs"]
 pub mod h_float_writer;
 #[path = "h_float.rs"]
@@ -29,3 +29,5 @@ pub mod h_quoting;
 pub mod h_recursion;
 #[path = "h_string_tokens.rs"]
 pub mod h_string_tokens;
+#[path = "h_string_kernels.rs"]
+pub mod h_string_kernels;
